@@ -380,12 +380,16 @@ func (t *ART) newNode4() (artNode, *node4) {
 
 func (t *ART) newLeaf(key artKey) (artNode, *artLeaf) {
 	addr, lf := t.allocator.allocLeaf(key)
+	// A new leaf is not counted in len/size yet: mark it so that setValue counts it exactly once.
+	lf.markDelete()
 	return artNode{kind: typeLeaf, addr: addr}, lf
 }
 
 func (t *ART) setValue(addr arena.MemdbArenaAddr, l *artLeaf, value []byte, ops []kv.FlagsOp) {
 	flags := l.GetKeyFlags()
-	if flags == 0 && l.vLogAddr.IsNull() || l.isDeleted() {
+	if l.isDeleted() {
+		// a new leaf (see newLeaf) or a leaf dropped by RevertVAddr; a live leaf without value and without flags
+		// (e.g. after UpdateFlags with a flag-clearing op) is already counted.
 		t.len++
 		t.size += int(l.keyLen)
 	}
